@@ -10,7 +10,7 @@ from kjobs.common import ORACLE_KEYWORDS, ident, in_words, is_digit, random_iden
 from safeds_stubgen.stubs_generator import _helper as H
 from vlib.ek.bstr import BStr, I, ite_str, show
 from vlib.ek.evalr import Ev
-from vlib.ek.job import THOROUGH, KJob, concrete
+from vlib.ek.job import THOROUGH, KJob, concrete, selftest
 
 NC = H.NamingConvention
 
@@ -81,6 +81,13 @@ def convert_legal():
             bound=f"all ASCII identifiers up to {n} characters",
             regions=_core_regions(x),
         )
+    def build(node):
+        ev = Ev(node=node, globs=fn.__globals__)
+        o = ev.lift(ev.call(x, NC.SAFE_DS, False))
+        reg = _core_regions(x)
+        return [x.wf(), ident(x), *[z3.Not(p) for p, _ in reg.values()]], z3.And(ident(o), z3.Not(ev.raise_guard()))
+
+    selftest(job, "convert_legal", fn, build)
     rng = job.rng
     samples = _test_inputs_convert() + [(random_ident(rng, n), NC.SAFE_DS, rng.random() < 0.5) for _ in range(150)]
     job.validate("_convert_name_to_convention", lambda s, c, k: concrete(Ev(fn).call(BStr.const(s), c, k)), fn, samples)
